@@ -242,6 +242,10 @@ class ExportOracles(WriterOracles):
                 if v_.variant == 5:
                     return some(Ref(args[0].cell, tuple(args[0].path) + (("f", 0),)))
                 return none()
+        if path.startswith("serde_json::Map") and name in ("len", "is_empty") and len(args) == 1 and isinstance(recv(it, args[0]), Opaque) \
+                and "map" in recv(it, args[0]).tags:
+            k = recv(it, args[0]).info.get("entries", 0)
+            return Int(64, False, val=k) if name == "len" else mkbool(k == 0)
         if (path.startswith("serde_json::Map") and name == "iter") or (name == "into_iter" and args and isinstance(recv(it, args[0]), Opaque) and "map" in recv(it, args[0]).tags):
             m = recv(it, args[0])
             k = m.info.get("entries", 0) if isinstance(m, Opaque) else 0
